@@ -173,10 +173,13 @@ def hp_pow(a, b):
     try:
         if a == 0 and b < 0:
             return INF
+        if _fin(a) and _fin(b) and a > 0 and abs(b * mpmath.log(a)) > mpf("1e7"):
+            # 2**(1e23): beyond every float range (mpmath would try to build the number)
+            return INF if b * mpmath.log(a) > 0 else mpf(0)
         r = mpmath.power(a, b)
     except ZeroDivisionError:
         return INF
-    except (ValueError, OverflowError):
+    except (ValueError, OverflowError, MemoryError):
         return NAN
     return _real(r)
 
@@ -191,6 +194,9 @@ def hp_mod(a, b):
 def hp_fn(f, a):
     try:
         if f == "exp":
+            if _fin(a) and abs(a) > mpf("1e7"):
+                # beyond every float range; mpmath would try to build the number (MemoryError for exp(1e23))
+                return INF if a > 0 else mpf(0)
             return mpmath.exp(a)
         if f == "log":
             if a == 0:
@@ -218,7 +224,7 @@ def hp_fn(f, a):
             return mpmath.floor(a) if _fin(a) else a
         if f == "sign":
             return mpf(1) if a > 0 else (mpf(-1) if a < 0 else (mpf(0) if a == 0 else NAN))
-    except (ValueError, OverflowError, ZeroDivisionError):
+    except (ValueError, OverflowError, ZeroDivisionError, MemoryError):
         return NAN
     raise ValueError(f)
 
